@@ -744,7 +744,8 @@ func replayC11(input json.RawMessage) *oracleResult {
 // --- C13
 
 type c13Input struct {
-	Ref string `json:"ref"`
+	Ref   string `json:"ref"`
+	Unset bool   `json:"unset,omitempty"` // the zero spec.Ref{} instead of NewRef(Ref)
 }
 
 func refView(r spec.Ref) string {
@@ -799,15 +800,19 @@ func checkC13(in c13Input) (msg, shape string, obs, exp interface{}) {
 		if string(b) != "{}" {
 			return "empty reference does not encode as {}", "json-shape", string(b), "{}"
 		}
-	} else if s != "" {
+	} else if s == "" {
+		if string(b) != `{"$ref":""}` {
+			return "the root reference does not encode as a single empty $ref member", "json-shape", string(b), `{"$ref":""}`
+		}
+	} else {
 		var m map[string]interface{}
 		json.Unmarshal(b, &m)
 		if len(m) != 1 || m["$ref"] != s {
 			return "non-empty reference is not a single $ref member", "json-shape", string(b), s
 		}
-		if refView(rj) != refView(r) {
-			return "JSON round trip changes the reference", "json", refView(rj), refView(r)
-		}
+	}
+	if refView(rj) != refView(r) || (rj.GetURL() == nil) != (r.GetURL() == nil) {
+		return "JSON round trip changes the reference", "json", refView(rj) + fmt.Sprintf(" url-set=%v", rj.GetURL() != nil), refView(r) + fmt.Sprintf(" url-set=%v", r.GetURL() != nil)
 	}
 	// gob
 	var buf bytes.Buffer
@@ -818,8 +823,36 @@ func checkC13(in c13Input) (msg, shape string, obs, exp interface{}) {
 	if err := gob.NewDecoder(&buf).Decode(&rg); err != nil {
 		return "gob encoding does not decode", "gob", err.Error(), nil
 	}
-	if s != "" && refView(rg) != refView(r) {
-		return "gob round trip changes the reference", "gob", refView(rg), refView(r)
+	if refView(rg) != refView(r) || (rg.GetURL() == nil) != (r.GetURL() == nil) {
+		return "gob round trip changes the reference", "gob", refView(rg) + fmt.Sprintf(" url-set=%v", rg.GetURL() != nil), refView(r) + fmt.Sprintf(" url-set=%v", r.GetURL() != nil)
+	}
+	return
+}
+
+// checkC13Unset: the reference that holds nothing (the zero value, as distinct from the root reference "") encodes as an
+// empty object and comes back as the zero value from both codecs.
+func checkC13Unset() (msg, shape string, obs, exp interface{}) {
+	defer func() {
+		if r := recover(); r != nil {
+			msg, shape = fmt.Sprintf("panic: %v", r), "panic"
+		}
+	}()
+	var r spec.Ref
+	b, err := json.Marshal(r)
+	if err != nil || string(b) != "{}" {
+		return "the unset reference does not encode as {}", "json-shape", string(b), "{}"
+	}
+	var rj spec.Ref
+	if err := json.Unmarshal(b, &rj); err != nil || refView(rj) != refView(r) || rj.GetURL() != nil {
+		return "JSON round trip changes the unset reference", "json", refView(rj), refView(r)
+	}
+	var buf bytes.Buffer
+	if err := gob.NewEncoder(&buf).Encode(r); err != nil {
+		return "the unset reference does not encode to gob", "gob", err.Error(), nil
+	}
+	var rg spec.Ref
+	if err := gob.NewDecoder(&buf).Decode(&rg); err != nil || refView(rg) != refView(r) || rg.GetURL() != nil {
+		return "gob round trip changes the unset reference", "gob", refView(rg), refView(r)
 	}
 	return
 }
@@ -835,10 +868,10 @@ func oracleC13(r *rng, n int, tier string) *oracleResult {
 				res.Distinct++
 			}
 		}
-		if msg, shape, obs, exp := checkC13(c13Input{s}); msg != "" {
+		if msg, shape, obs, exp := checkC13(c13Input{Ref: s}); msg != "" {
 			res.Stats["fail:"+shape]++
 			if res.Stats["fail:"+shape] <= 3 {
-				res.Failures = append(res.Failures, failure{Property: "C13", What: msg, Shape: shape, Input: c13Input{s}, Observed: obs, Expected: exp})
+				res.Failures = append(res.Failures, failure{Property: "C13", What: msg, Shape: shape, Input: c13Input{Ref: s}, Observed: obs, Expected: exp})
 			}
 		}
 	}
@@ -846,6 +879,10 @@ func oracleC13(r *rng, n int, tier string) *oracleResult {
 	maxTok := 3
 	if tier == "thorough" {
 		maxTok = 4
+	}
+	res.Evaluations++
+	if msg, shape, obs, exp := checkC13Unset(); msg != "" {
+		res.Failures = append(res.Failures, failure{Property: "C13", What: msg, Shape: shape, Input: c13Input{Unset: true}, Observed: obs, Expected: exp})
 	}
 	for k := 0; k <= maxTok; k++ {
 		if k == 0 {
@@ -862,7 +899,7 @@ func oracleC13(r *rng, n int, tier string) *oracleResult {
 	for i := 0; i < n*4; i++ {
 		try(randomRefString(r))
 	}
-	res.Samples = []interface{}{c13Input{"HTTP://Host.Example.COM:80//a//B%7ex#/definitions/a~1b"}}
+	res.Samples = []interface{}{c13Input{Ref: "HTTP://Host.Example.COM:80//a//B%7ex#/definitions/a~1b"}}
 	return dedupFailures(res)
 }
 
@@ -873,7 +910,11 @@ func replayC13(input json.RawMessage) *oracleResult {
 		res.Failures = append(res.Failures, failure{Property: "C13", What: "bad replay input"})
 		return res
 	}
-	if msg, shape, obs, exp := checkC13(in); msg != "" {
+	check := func() (string, string, interface{}, interface{}) { return checkC13(in) }
+	if in.Unset {
+		check = checkC13Unset
+	}
+	if msg, shape, obs, exp := check(); msg != "" {
 		res.Failures = append(res.Failures, failure{Property: "C13", What: msg, Shape: shape, Input: in, Observed: obs, Expected: exp})
 	}
 	return res
